@@ -426,6 +426,14 @@ func (x *Exec) convert(st *State, v Val, from, to types.Type) Val {
 		if fits {
 			return tm
 		}
+		if wf == wt && wf < 64 {
+			// reinterpretation between signed and unsigned of the same width
+			m := mkBig(pow2(wt))
+			if stt {
+				return mkIte(mkLe(mkBig(pow2(wt-1)), tm), mkSub(tm, m), tm)
+			}
+			return mkIte(mkLt(tm, mkInt(0)), mkAdd(tm, m), tm)
+		}
 		return wrapInt(tm, wt, stt)
 	}
 	ft, isF := from.Underlying().(*types.Basic)
@@ -474,6 +482,23 @@ func (x *Exec) convert(st *State, v Val, from, to types.Type) Val {
 	}
 	x.unsup("conversion %v -> %v", from, to)
 	return nil
+}
+
+// wrapSum wraps the sum/difference of two in-range values of a w-bit type: a single
+// conditional correction instead of mod (both operands are in range by typing).
+func wrapSum(v *Term, w int, signed bool) *Term {
+	if w == 0 || w == 64 {
+		return v
+	}
+	if isInt(v) {
+		return wrapInt(v, w, signed)
+	}
+	m := mkBig(pow2(w))
+	if !signed {
+		return mkIte(mkLt(v, mkInt(0)), mkAdd(v, m), mkIte(mkLe(m, v), mkSub(v, m), v))
+	}
+	h := mkBig(pow2(w - 1))
+	return mkIte(mkLt(v, mkNeg(h)), mkAdd(v, m), mkIte(mkLe(h, v), mkSub(v, m), v))
 }
 
 // ---- binary operators ----
@@ -573,6 +598,23 @@ func (x *Exec) bitop(st *State, op token.Token, a, b *Term, t types.Type) *Term 
 			return and
 		}
 	}
+	if isInt(b) && sg && b.Val.Sign() >= 0 && op != token.AND {
+		// exact for non-negative a; uninterpreted otherwise
+		if and := bitAndConst(a, b.Val, w); and != nil {
+			var exact *Term
+			switch op {
+			case token.OR:
+				exact = mkSub(mkAdd(a, b), and)
+			case token.XOR:
+				exact = mkSub(mkAdd(a, b), mkMul(mkInt(2), and))
+			case token.AND_NOT:
+				exact = mkSub(a, and)
+			}
+			name := map[token.Token]string{token.OR: "bor", token.XOR: "bxor", token.AND_NOT: "bandnot"}[op]
+			neg := mkApp(fmt.Sprintf("%s%d", name, w), sortInt, a, b)
+			return mkIte(mkLe(mkInt(0), a), exact, neg)
+		}
+	}
 	// uninterpreted with basic axioms
 	name := map[token.Token]string{token.AND: "band", token.OR: "bor", token.XOR: "bxor", token.AND_NOT: "bandnot"}[op]
 	r := mkApp(fmt.Sprintf("%s%d", name, w), sortInt, a, b)
@@ -596,7 +638,7 @@ func (x *Exec) bitop(st *State, op token.Token, a, b *Term, t types.Type) *Term 
 		x.assume(st, inRange(r, w, true))
 		if op == token.OR {
 			z := mkInt(0)
-			x.assume(st, mkAnd(mkImp(mkEq(a, z), mkEq(r, b)), mkImp(mkEq(b, z), mkEq(r, a)),
+			x.assume(st, mkAnd(mkImp(mkEq(a, z), mkEq(r, b)), mkImp(mkEq(b, z), mkEq(r, a)), mkImp(mkEq(a, b), mkEq(r, a)),
 				mkImp(mkAnd(mkLe(z, a), mkLe(z, b)), mkAnd(mkLe(a, r), mkLe(b, r), mkLe(r, mkAdd(a, b))))))
 		}
 	}
@@ -668,9 +710,9 @@ func (x *Exec) binop(st *State, op token.Token, av, bv Val, at, bt, rt types.Typ
 	w, sg, _ := intInfo(rt)
 	switch op {
 	case token.ADD:
-		return x.wrapTo(mkAdd(a, b), rt)
+		return wrapSum(mkAdd(a, b), w, sg)
 	case token.SUB:
-		return x.wrapTo(mkSub(a, b), rt)
+		return wrapSum(mkSub(a, b), w, sg)
 	case token.MUL:
 		return x.wrapTo(mkMul(a, b), rt)
 	case token.QUO:
